@@ -261,4 +261,32 @@ static inline unsigned MDL(_bzhi_u32)(unsigned a, unsigned idx) {
   return n >= 32 ? a : (a & ((1u << n) - 1u));
 }
 
+
+/* ---------- used by the itoa kernels (C08) ---------- */
+static inline m128 MDL(_mm_setzero_si128)(void) {
+  m128 r;
+#define L(i) r.b[i] = 0;
+  REP16(L)
+#undef L
+  return r;
+}
+static inline m128 MDL(_mm_add_epi8)(m128 a, m128 b) {
+  m128 r;
+#define L(i) r.b[i] = (uint8_t)(a.b[i] + b.b[i]);
+  REP16(L)
+#undef L
+  return r;
+}
+/* packus_epi16: eight signed 16-bit lanes of a then of b, each saturated to 0..255 */
+static inline uint8_t mdl_sat_u8_from_i16(uint8_t lo, uint8_t hi) {
+  int16_t v = (int16_t)(uint16_t)(lo | ((uint16_t)hi << 8));
+  return v < 0 ? 0 : v > 255 ? 255 : (uint8_t)v;
+}
+static inline m128 MDL(_mm_packus_epi16)(m128 a, m128 b) {
+  m128 r;
+#define L(i) r.b[i] = mdl_sat_u8_from_i16(a.b[2 * (i)], a.b[2 * (i) + 1]); r.b[8 + (i)] = mdl_sat_u8_from_i16(b.b[2 * (i)], b.b[2 * (i) + 1]);
+  REP8(L)
+#undef L
+  return r;
+}
 #endif
